@@ -27,7 +27,8 @@ pub enum Class {
     Alloc = 9,
 }
 pub const NCLASS: usize = 10;
-pub const ALL_PANIC_CLASSES: [Class; 9] = [
+pub const ALL_PANIC_CLASSES: [Class; 10] = [
+    Class::Alloc,
     Class::Hash,
     Class::Eq,
     Class::Clone,
